@@ -2,6 +2,7 @@ package pez
 
 import (
 	"context"
+	"encoding/json"
 	"errors"
 	"flag"
 	"fmt"
@@ -503,8 +504,19 @@ func dispatch(c C18Case, td *typeDef, bubble bool) vrt.Verdict {
 // cbLog records the global callbacks.
 type cbLog[T any] struct {
 	mu   sync.Mutex
-	news [][2]*T // old, new
+	news [][2]*T // old, new (deep snapshots taken inside the callback)
 	errs []cbErr[T]
+	// the pointers the library handed to the callbacks, with the snapshot
+	// taken at that moment: later re-stacks must not modify them
+	handed []handout[T]
+}
+
+// handout is a config the library handed out (a View() result, an Events()
+// value, a callback argument) and a deep snapshot taken when it was.
+type handout[T any] struct {
+	p    *T
+	snap *T
+	what string
 }
 
 type cbErr[T any] struct {
@@ -604,7 +616,7 @@ func execCase[T any, TP ez.ConfigWithConfigPath[T]](c C18Case, td *typeDef, bubb
 
 	// expected config: defaults, then (fileVer >= 0) the file, then env, then flags
 	build := func(fileVer int, envFlags bool) *T {
-		cfg := new(T)
+		cfg := newConfig(td.name).(*T)
 		for i := range td.leaves {
 			lc := c.Leaves[i]
 			set := td.leaves[i].set
@@ -812,12 +824,16 @@ func execCase[T any, TP ez.ConfigWithConfigPath[T]](c C18Case, td *typeDef, bubb
 	if c.Callbacks {
 		params.OnNewConfig = func(_ context.Context, o, n *T) {
 			log.mu.Lock()
-			log.news = append(log.news, [2]*T{cp(o), cp(n)})
+			so, sn := cp(o), cp(n)
+			log.news = append(log.news, [2]*T{so, sn})
+			log.handed = append(log.handed, handout[T]{o, so, "OnNewConfig's oldConfig"}, handout[T]{n, sn, "OnNewConfig's newConfig"})
 			log.mu.Unlock()
 		}
 		params.OnWatchedError = func(_ context.Context, err error, o, n *T) {
 			log.mu.Lock()
-			log.errs = append(log.errs, cbErr[T]{err, cp(o), cp(n)})
+			so, sn := cp(o), cp(n)
+			log.errs = append(log.errs, cbErr[T]{err, so, sn})
+			log.handed = append(log.handed, handout[T]{o, so, "OnWatchedError's oldConfig"}, handout[T]{n, sn, "OnWatchedError's newConfig"})
 			log.mu.Unlock()
 		}
 	}
@@ -1055,6 +1071,32 @@ func execCase[T any, TP ez.ConfigWithConfigPath[T]](c C18Case, td *typeDef, bubb
 		}
 	}
 
+	// ---- configs handed out earlier are never modified by later re-stacks
+	var handed []handout[T]
+	keep := func(x *T, what string) {
+		if x != nil {
+			handed = append(handed, handout[T]{x, cp(x), what})
+		}
+	}
+	checkHanded := func(when string) *vrt.Verdict {
+		all := append([]handout[T](nil), handed...)
+		log.mu.Lock()
+		all = append(all, log.handed...)
+		log.mu.Unlock()
+		ptrs, snaps := recd.receivers()
+		for k := range ptrs {
+			all = append(all, handout[T]{ptrs[k].(*T), snaps[k].(*T), fmt.Sprintf("the receiver of Verify call #%d", k)})
+		}
+		for _, h := range all {
+			if h.p == nil || eq(h.p, h.snap) {
+				continue
+			}
+			v := vrt.KeyedViolationf("handed-out-config-modified", "%s: %s was modified after it was handed out: it was %+v, now it is %+v\n%s", when, h.what, deref(h.snap), deref(h.p), leafDiff(td, h.p, h.snap)).With(nonTrivial, labels...)
+			return &v
+		}
+		return nil
+	}
+
 	// ---- Verify log against the initial full stack
 	checkVerifyLog := func(legit []*T, what string) *vrt.Verdict {
 		for k, e := range recd.snapshot() {
@@ -1141,6 +1183,7 @@ func execCase[T any, TP ez.ConfigWithConfigPath[T]](c C18Case, td *typeDef, bubb
 		return vrt.Violationf("entry point returned nil Dials and nil error").With(nonTrivial, labels...)
 	}
 	first := d.View()
+	keep(first, "the first View()")
 	if !eq(first, full) {
 		return precedenceViolation(first)
 	}
@@ -1182,6 +1225,9 @@ func execCase[T any, TP ez.ConfigWithConfigPath[T]](c C18Case, td *typeDef, bubb
 	if !eq(d.View(), full) {
 		return vrt.KeyedViolationf("precedence", "View() changed without a file change: %s, was %+v", describe(d.View()), *full).With(nonTrivial, labels...)
 	}
+	if v := checkHanded("after the entry point returned"); v != nil {
+		return *v
+	}
 
 	// ------------------------------------------------------------ rewrites
 	legit := []*T{full}
@@ -1201,6 +1247,23 @@ func execCase[T any, TP ez.ConfigWithConfigPath[T]](c C18Case, td *typeDef, bubb
 			want = fullR
 		} else {
 			labels = append(labels, "rewrite-rejected-by-verify")
+		}
+		for i := range td.leaves {
+			if td.leaves[i].path != pNone {
+				continue
+			}
+			was, _, _, _ := fileLeaf(i, r-1)
+			is, _, _, _ := fileLeaf(i, r)
+			if was && !is {
+				// the leaf must fall back to env / flag / default
+				labels = append(labels, "rewrite-omits-earlier-key")
+				if n := td.leaves[i].name; strings.HasPrefix(n, "Server.Limits.") || strings.HasPrefix(n, "DB.") {
+					labels = append(labels, "rewrite-omits-key-under-pointer-default")
+					if c.Leaves[i].Layers&(bEnv|bFlag) == 0 {
+						labels = append(labels, "rewrite-omits-key-under-pointer-default:falls-back-to-default")
+					}
+				}
+			}
 		}
 		nBefore := len(recd.snapshot())
 		tmpName := filepath.Join(filepath.Dir(realPath), ".tmp-c18")
@@ -1255,18 +1318,23 @@ func execCase[T any, TP ez.ConfigWithConfigPath[T]](c C18Case, td *typeDef, bubb
 		if v := checkVerifyLog(legit, what); v != nil {
 			return *v
 		}
+		keep(d.View(), fmt.Sprintf("the View() after rewrite %d", r))
 		if got := d.View(); !eq(got, want) {
 			return vrt.KeyedViolationf("rewrite-precedence", "%s: the view is %+v, want %+v\n%s(file:\n%s)", what, *got, *want, leafDiff(td, got, want), content).With(nonTrivial, labels...)
 		}
 		for drained := false; !drained; {
 			select {
 			case ev := <-d.Events():
+				keep(ev, fmt.Sprintf("an Events() value after rewrite %d", r))
 				if !memberOf(ev, legit) {
 					return vrt.KeyedViolationf("events-foreign", "%s: Events() delivered %s, which is not a full stack of any file version", what, describe(ev)).With(nonTrivial, labels...)
 				}
 			default:
 				drained = true
 			}
+		}
+		if v := checkHanded(what); v != nil {
+			return *v
 		}
 		cur = want
 	}
@@ -1291,6 +1359,9 @@ func execCase[T any, TP ez.ConfigWithConfigPath[T]](c C18Case, td *typeDef, bubb
 				labels = append(labels, "watched-error-other")
 			}
 		}
+	}
+	if v := checkHanded("at the end of the case"); v != nil {
+		return *v
 	}
 	finish()
 	return vrt.OK(nonTrivial, labels...)
@@ -1341,6 +1412,10 @@ func deref[T any](p *T) any {
 	if p == nil {
 		return "<nil>"
 	}
+	// JSON shows what is behind pointer-typed fields (durations in ns)
+	if b, err := json.Marshal(p); err == nil {
+		return string(b)
+	}
 	return *p
 }
 
@@ -1349,12 +1424,21 @@ func leafDiff(td *typeDef, got, want any) string {
 	var b strings.Builder
 	g, w := reflect.ValueOf(got).Elem(), reflect.ValueOf(want).Elem()
 	for i := range td.leaves {
-		gv, wv := g, w
-		for _, f := range strings.Split(td.leaves[i].name, ".") {
-			gv, wv = gv.FieldByName(f), wv.FieldByName(f)
+		field := func(v reflect.Value) any {
+			for _, f := range strings.Split(td.leaves[i].name, ".") {
+				if v.Kind() == reflect.Ptr {
+					if v.IsNil() {
+						return "<nil " + v.Type().String() + ">"
+					}
+					v = v.Elem()
+				}
+				v = v.FieldByName(f)
+			}
+			return v.Interface()
 		}
-		if !reflect.DeepEqual(gv.Interface(), wv.Interface()) {
-			fmt.Fprintf(&b, "  leaf %s: got %v, want %v\n", td.leaves[i].name, gv.Interface(), wv.Interface())
+		gv, wv := field(g), field(w)
+		if !reflect.DeepEqual(gv, wv) {
+			fmt.Fprintf(&b, "  leaf %s: got %v, want %v\n", td.leaves[i].name, gv, wv)
 		}
 	}
 	return b.String()
@@ -1463,13 +1547,15 @@ func allParked3() bool {
 // ----------------------------------------------------------------------------
 // Test functions.
 
-const c18Rule = "static ez config types (flat; nested with aliases; untagged with FileFieldNameEncoder; path computed from two leaves), each with ConfigPath and a recording, content-dependent Verify. " +
+const c18Rule = "static ez config types (flat with a bool; nested with aliases and a pointer-to-struct field; untagged with FileFieldNameEncoder and a pointer-to-struct field; path computed from two leaves), each with ConfigPath and a recording, content-dependent Verify; " +
+	"the defaults hold non-nil pointers to structs (leaves below them settable from file, env and flag) and, when the default layer sets them, non-empty maps and slices. " +
 	"Per leaf rapid draws a subset of {default, file, env, flag}; the value of a layer is derived from (leaf seed, layer) so the four are pairwise different " +
 	"(one leaf in five instead lets its top layer - flag, env or file - repeat exactly the value the defaults struct holds, generated or zero, while a lower non-default layer differs: an explicit value equal to the default must still win; one bool leaf, whose flag is also spelled bare -n / -n=false). " +
 	"Format json/yaml/toml/cue through the typed entry points, the extension-dispatching one and the two decoder-factory ones; the path comes from default/env/flag (lower layers and the file itself name decoy files that exist with other content); " +
 	"file valid / missing / malformed / unknown extension / no path at all; flags through Params.FlagSource on a fresh FlagSet (3 in 4) or a fresh flag.CommandLine + os.Args (restored). " +
 	"Oracle by construction: first View() = flag > env > file > default per leaf; the decoder factory saw the path of defaults+env+flags; every Verify receiver deep-equals a full stack (never the file-less intermediate, none at all when the file cannot be read); " +
-	"a rejected full stack gives an error that errors.Is the verifier's and no Dials; after return Events() is empty and neither global callback ran (watch off: inside a synctest bubble after synctest.Wait; watch on: after all library goroutines parked). " +
+	"a rejected full stack gives an error that errors.Is the verifier's and no Dials; after return Events() is empty and neither global callback ran (watch off: inside a synctest bubble after synctest.Wait; watch on: after all library goroutines parked); " +
+	"every config handed out (View() results, Events() values, callback arguments, Verify receivers) is deep-snapshotted when handed out and must still equal its snapshot after every later re-stack and at the end. " +
 	"non-trivial = some leaf set by >= 3 layers AND the intermediate is rejected by Verify while the full stack is accepted; distinct = distinct cases"
 
 var c18Assumptions = []string{
@@ -1496,7 +1582,7 @@ func TestC18Watch(t *testing.T) {
 	defer func() { c18T = nil }()
 	vrt.Check(t, vrt.Prop[C18Case]{
 		ID: "C18", Name: "watch",
-		Rule: "watch on, 0-3 later atomic replacements of the file (each with its own leaf subset and fresh values; some rejected by Verify); after each the view must converge to flag > env > NEW file > default " +
+		Rule: "watch on, 0-3 later atomic replacements of the file (each with its own leaf subset and fresh values, so later versions OMIT keys earlier versions set and the leaf must fall back to env / flag / default, also below a non-nil default pointer; some rejected by Verify); after each the view must converge to flag > env > NEW file > default " +
 			"(or stay, when Verify rejects the new stack), every Verify receiver / Events value / callback argument must be a full stack of some file version; convergence is polled, a 10 s stall is a violation only if three goroutine dumps 300 ms apart show every library goroutine parked, otherwise the case is discarded as inconclusive. " + c18Rule,
 		Assumptions: c18Assumptions,
 		Gen:         genC18(true), Run: runC18,
